@@ -210,7 +210,9 @@ func rpGen(r *rng.R, id int) *rpProject {
 			var mlines []string
 			switch c.Fault {
 			case "directive":
-				lines = append(lines, "bogusSetting yes")
+				// an unknown setting, or a known one with a malformed value (one value expected: none / two given; not a boolean; not a format)
+				bad := []string{"bogusSetting yes", "output:package example.org/x y", "output:package", "output:format bogus", "wrapErrors maybe", "skipCopySameType yes no", "enum:unknown"}
+				lines = append(lines, bad[(p.ID+len(c.Name)+len(lines))%len(bad)])
 			case "methoddirective":
 				mlines = append(mlines, "map")
 			case "signature":
